@@ -659,6 +659,101 @@ fn backpressure(res: &mut PartResult, buffer: Option<usize>) {
     res.sample(json!({"history": "slow client stalls for 6000 emits while a fast client reads; then the slow client resumes", "buffer": format!("{:?}", buffer)}));
 }
 
+/// Emits must reach a connected, reading client without anybody else waking the transport thread: the harness's
+/// quiescence barrier wakes it, so the event histories cannot see a wake-up the exporter forgot. Here nothing but the
+/// emits themselves ever wakes it: 12 rounds of two back-to-back counter increments (one with a tiny key, one with a key
+/// of 20 000 labels, whose clone widens every window between "look at the channel" and "send"), each round awaited
+/// without any nudge. Only if a frame is still missing after 5 s with the transport thread idle is it woken by hand:
+/// a frame that arrives then was stranded, one that still does not was lost.
+fn unaided_delivery(res: &mut PartResult, buffer: Option<usize>) {
+    res.engine = "E4 emits with no other wake-up source, against the real transport thread".into();
+    let ex = match start(buffer) {
+        Ok(e) => e,
+        Err(e) => {
+            res.violation("exporter-failed-to-start", e, json!({"unaided": true}));
+            return;
+        }
+    };
+    let _ = barrier(&ex.rec);
+    let mut s = match TcpStream::connect_timeout(&ex.addr, Duration::from_secs(5)) {
+        Ok(s) => s,
+        Err(e) => {
+            res.violation("connect-not-answered", format!("connect failed: {}", e), json!({"unaided": true}));
+            return;
+        }
+    };
+    s.set_nonblocking(true).unwrap();
+    let _ = barrier(&ex.rec);
+    let small = ex.rec.register_counter(&Key::from_name("small"), &META);
+    let big_key = Key::from_parts("big", (0..20_000).map(|i| Label::new(format!("l{:05}", i), "v")).collect::<Vec<_>>());
+    let big = ex.rec.register_counter(&big_key, &META);
+    let mut buf: Vec<u8> = Vec::new();
+    let mut seen_small = 0u64;
+    let mut seen_big = 0u64;
+    let mut states = vseq::States::new();
+    let mut pump = |s: &mut TcpStream, buf: &mut Vec<u8>, seen_small: &mut u64, seen_big: &mut u64| {
+        let mut tmp = vec![0u8; 1 << 16];
+        loop {
+            match s.read(&mut tmp) {
+                Ok(0) => break,
+                Ok(n) => buf.extend_from_slice(&tmp[..n]),
+                Err(_) => break,
+            }
+        }
+        if let Ok((frames, rest)) = pbwire::split_stream(buf) {
+            for f in &frames {
+                if let Frame::Metric { name, .. } = f {
+                    if name == "small" {
+                        *seen_small += 1;
+                    } else if name == "big" {
+                        *seen_big += 1;
+                    }
+                }
+            }
+            let keep = buf.len() - rest;
+            buf.drain(..keep);
+        }
+    };
+    for round in 1..=12u64 {
+        res.executions += 1;
+        res.transitions += 2;
+        small.increment(round);
+        big.increment(round);
+        let t0 = Instant::now();
+        let mut last_batches = ex.rec.verif_batches_done();
+        let mut idle_since = Instant::now();
+        loop {
+            pump(&mut s, &mut buf, &mut seen_small, &mut seen_big);
+            if seen_small >= round && seen_big >= round {
+                break;
+            }
+            let b = ex.rec.verif_batches_done();
+            if b != last_batches {
+                last_batches = b;
+                idle_since = Instant::now();
+            }
+            if t0.elapsed() > Duration::from_secs(5) && idle_since.elapsed() > Duration::from_secs(2) {
+                // the transport thread has been idle for 2 s with a frame outstanding: wake it by hand and look again
+                ex.rec.verif_wake();
+                let t1 = Instant::now();
+                while t1.elapsed() < Duration::from_secs(3) && !(seen_small >= round && seen_big >= round) {
+                    pump(&mut s, &mut buf, &mut seen_small, &mut seen_big);
+                    std::thread::sleep(Duration::from_millis(2));
+                }
+                let sig = if seen_small >= round && seen_big >= round { "metric-stranded-until-unrelated-wakeup" } else { "emitted-frame-not-delivered" };
+                res.violation(sig, format!("buffer {:?}, round {}: after two back-to-back emits the reading client had {} small / {} big frames 5 s later with the transport thread idle; after a manual wake-up it has {} / {}", buffer, round, seen_small, seen_big, seen_small, seen_big), json!({"unaided": true}));
+                return;
+            }
+            std::thread::sleep(Duration::from_millis(1));
+        }
+        states.add(&(seen_small, seen_big));
+    }
+    res.states = states.len();
+    res.distinct_outcomes = states.len();
+    res.bound = json!({"rounds": 12, "emits_per_round": 2, "big_key_labels": 20000, "buffer_size": format!("{:?}", buffer)});
+    res.sample(json!({"round": "small.increment(n); big.increment(n); wait for both frames without waking the transport thread"}));
+}
+
 fn parts(ctx: &Ctx) -> Vec<PartSpec> {
     let mut v = Vec::new();
     let b = if ctx.quick() { 160.0 } else { 2400.0 };
@@ -681,6 +776,10 @@ fn parts(ctx: &Ctx) -> Vec<PartSpec> {
             v.push(PartSpec::new(&format!("histories-len3-1client-buffer{}-dev2", bn), json!({"len": 3, "clients": 1, "buffer": bj, "dev": 2, "devlen": 3, "shard": 0, "shards": 1})).budget(b));
         }
         v.push(PartSpec::new(&format!("backpressure-buffer{}", bn), json!({"bp": true, "buffer": bj})).budget(120.0));
+        if bv != Some(1) {
+            // (with buffer 1 two back-to-back emits exceed the rate the buffer allows)
+            v.push(PartSpec::new(&format!("unaided-delivery-buffer{}", bn), json!({"unaided": true, "buffer": bj})).budget(120.0));
+        }
     }
     for (i, p) in v.iter_mut().enumerate() {
         p.arg["net"] = json!(i);
@@ -712,7 +811,9 @@ fn run(ctx: &Ctx, spec: &PartSpec) -> PartResult {
     let mut res = PartResult::new(&spec.name, "");
     NET.store(spec.arg["net"].as_u64().unwrap_or(0) as usize, std::sync::atomic::Ordering::SeqCst);
     let buffer = spec.arg["buffer"].as_u64().map(|x| x as usize);
-    if spec.arg["bp"].as_bool() == Some(true) {
+    if spec.arg["unaided"].as_bool() == Some(true) {
+        unaided_delivery(&mut res, buffer);
+    } else if spec.arg["bp"].as_bool() == Some(true) {
         backpressure(&mut res, buffer);
     } else {
         sweep(ctx, &mut res, spec.arg["len"].as_u64().unwrap_or(4) as usize, spec.arg["clients"].as_u64().unwrap_or(2) as usize, buffer, spec.arg["dev"].as_u64().unwrap_or(0) as usize, spec.arg["devlen"].as_u64().unwrap_or(3) as usize, spec.arg["shard"].as_u64().unwrap_or(0) as usize, spec.arg["shards"].as_u64().unwrap_or(1) as usize);
@@ -724,7 +825,7 @@ fn main() {
     driver::main(CheckDef {
         prop: "C11",
         level: "model_checking",
-        rule: "every well-formed history of at most N events over {connect(i), connect(i) immediately followed by an emit (no barrier: the accept and the metric can share a wake-up), read(i), close(i), reset(i) (SO_LINGER 0), describe(counter | gauge + histogram), emit(6 operations incl. labels)} with 2-3 clients, for buffer_size in {Some(1), Some(2), Some(1024), None}, against a fresh real exporter (public TcpBuilder::build) with a quiescence barrier after every event (wake; wait for a fully processed batch; twice), plus for fan-out histories every assignment of at most d deviating answers {Short(1), Short(5), WouldBlock} to the exporter's first write calls (deviation-bounded, default Full); every client's byte stream is decoded by an independent protobuf wire parser: whole frames only, metadata known at connect first, then exactly the emits issued while connected, in order, intact, no duplicates (with a small buffer and held-back writes only older frames may be missing); one scripted real back-pressure history per buffer config; distinct = distinct per-client delivery summaries",
+        rule: "every well-formed history of at most N events over {connect(i), connect(i) immediately followed by an emit (no barrier: the accept and the metric can share a wake-up), read(i), close(i), reset(i) (SO_LINGER 0), describe(counter | gauge + histogram), emit(6 operations incl. labels)} with 2-3 clients, for buffer_size in {Some(1), Some(2), Some(1024), None}, against a fresh real exporter (public TcpBuilder::build) with a quiescence barrier after every event (wake; wait for a fully processed batch; twice), plus for fan-out histories every assignment of at most d deviating answers {Short(1), Short(5), WouldBlock} to the exporter's first write calls (deviation-bounded, default Full); every client's byte stream is decoded by an independent protobuf wire parser: whole frames only, metadata known at connect first, then exactly the emits issued while connected, in order, intact, no duplicates (with a small buffer and held-back writes only older frames may be missing); one scripted real back-pressure history per buffer config; per buffer config 12 rounds of two back-to-back emits awaited with no other wake-up source (lost wake-ups); distinct = distinct per-client delivery summaries",
         assumptions: &["kernel / mio readiness order inside one epoll batch is not enumerated: one harness event at a time, exporter run to quiescence in between", "Interrupted is not in the write-answer alphabet (a non-blocking socket write cannot return EINTR on Linux)", "every history ends with one extra emit so that frames held back by an injected short or would-block answer are driven out"],
         parts,
         run,
